@@ -1,5 +1,7 @@
 """Inner-product argument: round summaries of `create`, the verifier's s-recurrence (C10), and
 the schedule of both (used by SCHED for C06)."""
+import os
+
 import sympy as sp
 
 from . import facts as FX
@@ -24,7 +26,7 @@ def analyse_create(F):
     info = {"rounds": []}
 
     def while_hook(I_, e, env):
-        if not (I_.fn_stack and I_.fn_stack[-1] == P_CREATE):
+        if not (I_.fn_stack and FX.same_fn(I_.fn_stack[-1], P_CREATE)):
             return NotImplemented
         blk = e["body"]
         top = blk.get("expr")
@@ -35,11 +37,40 @@ def analyse_create(F):
         cond_e, body = top["c"], top["t"]
         carried = I_.carried_vars(body, env)
         pushed, _ = I_.pushed_and_read(body, env)
-        pre = {name: I_.deref(env[lid]) for lid, name in list(carried.items()) + list(pushed.items())}
-        info["pre_while"] = pre
         info["while_cond"] = I_.ev(cond_e, env)
         h2 = isym("h2")
-        byname = {name: lid for lid, name in list(carried.items()) + list(pushed.items())}
+        # state variables are identified by what they hold (provenance of their values), never by their names
+        role_atoms = {"av": "a", "bv": "b", "Gv": "G", "Hv": "H"}
+
+        def role_of(v):
+            v = I_.deref(v)
+            if isinstance(v, Ite):
+                for side in (v.a, v.b):
+                    r_ = role_of(side)
+                    if r_:
+                        return r_
+                return None
+            if isinstance(v, IntV):
+                return "n"
+            if isinstance(v, Vec) and v.segs:
+                el = v.segs[-1].f(isym("_j"))
+                txt = repr(el)
+                hits = {r_ for a_, r_ in role_atoms.items() if (a_ + "(") in txt}
+                if len(hits) == 1 and eq(v.length(), 2 * h):
+                    return hits.pop()
+            return None
+
+        byname = {}
+        for lid, name in carried.items():
+            r_ = role_of(I_.deref(env[lid]))
+            if os.environ.get("BPV_DEBUG"):
+                print("ROLE", name, r_, repr(I_.deref(env[lid]))[:200])
+            if r_ and r_ not in byname:
+                byname[r_] = lid
+        plists = {name: lid for lid, name in pushed.items()}
+        pre = {r_: I_.deref(env[lid]) for r_, lid in byname.items()}
+        pre.update({("list:" + name): I_.deref(env[lid]) for name, lid in plists.items()})
+        info["pre_while"] = pre
         need = {"a", "b", "G", "H", "n"}
         if not need <= set(byname):
             raise Unanalysable(f"round state variables {sorted(need - set(byname))} not found in the halving loop", FX.short(e.get("sp")))
@@ -48,16 +79,16 @@ def analyse_create(F):
         env[byname["b"]] = H.sc_vec("rb", 2 * h2)
         env[byname["G"]] = H.pt_vec("rG", 2 * h2)
         env[byname["H"]] = H.pt_vec("rH", 2 * h2)
-        for name, lid in byname.items():
-            if name in pushed.values():
-                env[lid] = Vec([])
+        for name, lid in plists.items():
+            env[lid] = Vec([])
         cval = I_.ev(cond_e, env)
         old = I_.sub_trace()
         I_.ev_raw(body, env)
         sub = I_.trace
         I_.trace = old
-        post = {name: I_.deref(env[lid]) for name, lid in byname.items()}
-        info["rounds"].append({"kind": "generic", "h": h2, "post": post, "trace": sub.items, "cond": cval, "where": FX.short(e.get("sp"))})
+        post = {r_: I_.deref(env[lid]) for r_, lid in byname.items()}
+        post_lists = {name: I_.deref(env[lid]) for name, lid in plists.items()}
+        info["rounds"].append({"kind": "generic", "h": h2, "post": post, "post_lists": post_lists, "trace": sub.items, "cond": cval, "where": FX.short(e.get("sp"))})
         I_.trace.add("star", sub.items, {"n": isym("rounds"), "isym": None, "off": 0, "where": FX.short(e.get("sp"))})
         # state after the loop: n == 1
         env[byname["n"]] = IntV(1)
@@ -65,10 +96,8 @@ def analyse_create(F):
         env[byname["b"]] = H.sc_vec("b_fin", 1)
         env[byname["G"]] = H.pt_vec("G_fin", 1)
         env[byname["H"]] = H.pt_vec("H_fin", 1)
-        for name, lid in byname.items():
-            if name in pushed.values():
-                prev = pre[name]
-                env[lid] = Opaque("rounds-list", first=prev, generic=post[name])
+        for name, lid in plists.items():
+            env[lid] = Opaque("rounds-list", first=pre["list:" + name], generic=post_lists[name])
         return UNIT
 
     I.hooks["while"] = while_hook
@@ -145,7 +174,15 @@ def check_create(ck, F):
     u0 = ssym("ch[u].d0")
     gfun, hfun = sfun("gf"), sfun("hf")
     ref1 = ref_round(h, sfun("av"), sfun("bv"), sfun("Gv"), sfun("Hv"), gfun, hfun, ssym("Q"), u0)
-    first = {k: pick_then(pre.get(k)) for k in ("a", "b", "G", "H", "L_vec", "R_vec", "n")}
+    first = {k: pick_then(pre.get(k)) for k in ("a", "b", "G", "H", "n")}
+    retv = A["ret"]
+    lists = {}
+    for fld in ("L_vec", "R_vec"):
+        o_ = retv.fields.get(fld) if isinstance(retv, Struct) else None
+        if isinstance(o_, Opaque) and o_.what == "rounds-list":
+            lists[fld] = o_
+    first["L_vec"] = pick_then(lists["L_vec"].info["first"]) if "L_vec" in lists else None
+    first["R_vec"] = pick_then(lists["R_vec"].info["first"]) if "R_vec" in lists else None
 
     def cmp_vec(rule, inst, got, want, what):
         why = []
@@ -171,8 +208,8 @@ def check_create(ck, F):
     u1 = ssym("ch[u]#1.d0")
     ref2 = ref_round(h2, sfun("ra"), sfun("rb"), sfun("rG"), sfun("rH"), one, one, ssym("Q"), u1)
     post = g["post"]
-    cmp_pt("R10.1", "generic:L", post.get("L_vec"), ref2["L"], "generic-round L")
-    cmp_pt("R10.1", "generic:R", post.get("R_vec"), ref2["R"], "generic-round R")
+    cmp_pt("R10.1", "generic:L", lists["L_vec"].info["generic"] if "L_vec" in lists else None, ref2["L"], "generic-round L")
+    cmp_pt("R10.1", "generic:R", lists["R_vec"].info["generic"] if "R_vec" in lists else None, ref2["R"], "generic-round R")
     cmp_vec("R10.1", "generic:a'", post.get("a"), ref2["a"], "folded a")
     cmp_vec("R10.1", "generic:b'", post.get("b"), ref2["b"], "folded b")
     cmp_vec("R10.1", "generic:G'", post.get("G"), ref2["G"], "folded G")
@@ -266,7 +303,7 @@ def check_vs(ck, F, rule="R10.3"):
     ck.require(isinstance(val, Tup) and len(val.items) == 3 and vec_eq(val.items[0], want_sq, why), rule, "u_sq", f"first component must be [u_j^2]; {why}", where)
     why = []
     ck.require(isinstance(val, Tup) and len(val.items) == 3 and vec_eq(val.items[1], want_inv, why), rule, "u_inv_sq", f"second component must be [u_j^-2]; {why}", where)
-    recs = [r for r in I.recurrences if r["fn"] == P_VS]
+    recs = [r for r in I.recurrences if FX.same_fn(r["fn"], P_VS)]
     ok = len(recs) == 1
     msg = f"expected one recurrence defining s, found {len(recs)}"
     if ok:
@@ -292,7 +329,7 @@ def check_vs(ck, F, rule="R10.3"):
     third = val.items[2] if isinstance(val, Tup) and len(val.items) == 3 else None
     ck.require(isinstance(third, Vec) and eq(third.length(), n), rule, "s-length", f"third component must be s with n entries, got {show(third) if isinstance(third, Vec) else third!r}", where)
     # guards: lg_n >= 32 ; n != 1<<lg_n ; len(R) != lg_n  (each -> Err(VerificationError))
-    guards = [it for it in A["trace"] if it[0] == "guard" and it[4] == P_VS]
+    guards = [it for it in A["trace"] if it[0] == "guard" and FX.same_fn(it[4], P_VS)]
     keys = [g[1].key() for g in guards]
     want_guards = {
         "lg_n<32": lambda c: c.op == "lt" and c.neg and eq(c.a, lg) and eq(c.b, 32),
